@@ -539,6 +539,8 @@ func c16WriteBits(c *Ctx) {
 }
 
 var c16Canaries = []Canary{
+	{Name: "r7-verify-state-rewritten", ExpectKey: "C16.R1#lock-verifier:state-written-only-at-construction", Edits: []Edit{{File: "commands/lockverifier.go", Find: "\tours, theirs, err := lockClient.SearchLocksVerifiable(0, false)\n\tif err != nil {\n\t\tif errors.IsNotImplementedError(err) {\n\t\t\tdisableFor(lv.endpoint.Url)\n\t\t} else if lv.verifyState == verifyStateUnknown || lv.verifyState == verifyStateEnabled {\n\t\t\tif errors.IsAuthError(err) {\n\t\t\t\tif lv.verifyState == verifyStateUnknown {\n", Repl: "\tours, theirs, err := lockClient.SearchLocksVerifiable(0, false)\n\tif err != nil {\n\t\tif errors.IsNotImplementedError(err) {\n\t\t\t// The remote has no locking API: remember that, and do\n\t\t\t// not ask it again for the remaining refs of this push.\n\t\t\tdisableFor(lv.endpoint.Url)\n\t\t\tlv.verifyState = verifyStateDisabled\n\t\t} else if lv.verifyState == verifyStateUnknown || lv.verifyState == verifyStateEnabled {\n\t\t\tif errors.IsAuthError(err) {\n\t\t\t\tif lv.verifyState == verifyStateUnknown {\n"}}},
+	{Name: "r7-quotepath-dropped", ExpectKey: "C16.R4#git:name-listing-unquoted", Edits: []Edit{{File: "git/git.go", Find: "func GetFilesChanged(from, to string) ([]string, error) {\n\tvar files []string\n\targs := []string{\n\t\t\"-c\", \"core.quotepath=false\", // handle special chars in filenames\n\t\t\"diff-tree\",\n\t\t\"--no-commit-id\",\n\t\t\"--name-only\",\n", Repl: "func GetFilesChanged(from, to string) ([]string, error) {\n\tvar files []string\n\targs := []string{\n\t\t\"diff-tree\",\n\t\t\"--no-commit-id\",\n\t\t\"--name-only\",\n"}}},
 	{Name: "r6-unlock-id-skips-server", ExpectKey: "C16.R2#unlock-id:server-asked-when-cache-is-empty", Edits: []Edit{{File: "commands/command_unlock.go", Find: "\t// Get the path so we can check the status\n\tfilter := map[string]string{\"id\": id}\n\t// try local cache first\n\tlocks, _ := lockClient.SearchLocks(filter, 0, true, false)\n\tif len(locks) == 0 {\n\t\t// Fall back on calling server\n\t\tlocks, _ = lockClient.SearchLocks(filter, 0, false, false)\n\t}\n", Repl: "\t// Get the path so we can check the status\n\tfilter := map[string]string{\"id\": id}\n\t// try local cache first\n\tlocks, err := lockClient.SearchLocks(filter, 0, true, false)\n\tif err != nil {\n\t\t// Fall back on calling server\n\t\tlocks, _ = lockClient.SearchLocks(filter, 0, false, false)\n\t}\n"}}},
 	{Name: "r5-locks-fetched-per-ref", ExpectKey: "C16.R1#locks-of-all-refs", Edits: []Edit{{File: "commands/uploader.go", Find: "\tverifyLocksForUpdates(ctx.lockVerifier, updates)\n", Repl: ""}}},
 	{Name: "r4-lock-path-from-cwd", ExpectKey: "C16.R2#lock-path", Edits: []Edit{{File: "locking/locks.go", Find: "return filepath.Join(c.LocalWorkingDir, p), nil", Repl: "return filepath.Abs(p)"}}},
